@@ -32,3 +32,62 @@ package db
 //@ lemma Before_transitive(a SequenceID, b SequenceID, c SequenceID)
 //@   mode bv
 //@   ensures[transitive] a.Before(b) && b.Before(c) ==> a.Before(c)
+
+// ---- parsing and formatting ----
+
+//@ pred httpStatus(e error) int
+//@   is ite(dynType(e) == typeTag(*base.HTTPError), unbox(e, *base.HTTPError).Status, errStatus(e))
+
+//@ pred wfTok(str string, r SequenceID) bool
+//@   is (ncomp(str) == 1 && parsesU64(comp(str, 0)) && r == SequenceID{Seq: valU64(comp(str, 0))}) ||
+//@      (ncomp(str) == 2 && parsesU64(comp(str, 0)) && parsesU64(comp(str, 1)) && r == SequenceID{TriggeredBy: valU64(comp(str, 0)), Seq: valU64(comp(str, 1))}) ||
+//@      (ncomp(str) == 3 && parsesU64(comp(str, 0)) && parsesU64(comp(str, 2)) && (comp(str, 1) == "" || parsesU64(comp(str, 1))) &&
+//@         r == SequenceID{LowSeq: valU64(comp(str, 0)), TriggeredBy: ite(comp(str, 1) == "", 0, valU64(comp(str, 1))), Seq: valU64(comp(str, 2))})
+
+//@ pred validTok(str string) bool
+//@   is (ncomp(str) == 1 && parsesU64(comp(str, 0))) ||
+//@      (ncomp(str) == 2 && parsesU64(comp(str, 0)) && parsesU64(comp(str, 1))) ||
+//@      (ncomp(str) == 3 && parsesU64(comp(str, 0)) && parsesU64(comp(str, 2)) && (comp(str, 1) == "" || parsesU64(comp(str, 1))))
+
+//@ func ParseIntSequenceComponent
+//@   ensures[ok-iff]   isNilErr(result1) <==> (parsesU64(component) || (allowEmpty && component == ""))
+//@   ensures[value]    isNilErr(result1) ==> result0 == ite(component == "", 0, valU64(component))
+//@   ensures[err-kind] !isNilErr(result1) ==> dynType(result1) != typeTag(*base.HTTPError) && errStatus(result1) == 500
+
+//@ func parseIntegerSequenceID
+//@   safety on
+//@   ensures[empty]        str == "" ==> isNilErr(result1) && result0 == SequenceID{}
+//@   ensures[accepts]      str != "" && validTok(str) ==> isNilErr(result1)
+//@   ensures[well-parsed]  str != "" && isNilErr(result1) ==> wfTok(str, result0)
+//@   ensures[client-error] !isNilErr(result1) ==> httpStatus(result1) == 400
+
+//@ func ParsePlainSequenceID
+//@   ensures[client-error] !isNilErr(err) ==> httpStatus(err) == 400
+//@   ensures[well-parsed]  str != "" && isNilErr(err) ==> wfTok(str, s)
+//@   ensures[accepts]      str != "" && validTok(str) ==> isNilErr(err)
+
+//@ pred fmtSpec(s SequenceID, out string) bool
+//@   is ite(s.TriggeredBy > 0 && s.Seq < s.TriggeredBy,
+//@          ite(s.LowSeq > 0 && s.LowSeq < s.TriggeredBy, out == fmt3(s.LowSeq, s.TriggeredBy, s.Seq), out == fmt2(s.TriggeredBy, s.Seq)),
+//@          ite(s.LowSeq > 0 && s.LowSeq < s.Seq, out == fmtLS(s.LowSeq, s.Seq), out == dec(s.Seq)))
+
+//@ func SequenceID.intSeqToString
+//@   ensures[format] fmtSpec(s, result)
+
+//@ func SequenceID.String
+//@   ensures[format] fmtSpec(s, result)
+
+// normal form of a token: the fields the formatter keeps
+//@ pred normTok(s SequenceID) SequenceID
+//@   is ite(s.TriggeredBy > 0 && s.Seq < s.TriggeredBy,
+//@          ite(s.LowSeq > 0 && s.LowSeq < s.TriggeredBy, s, SequenceID{TriggeredBy: s.TriggeredBy, Seq: s.Seq}),
+//@          ite(s.LowSeq > 0 && s.LowSeq < s.Seq, SequenceID{LowSeq: s.LowSeq, Seq: s.Seq}, SequenceID{Seq: s.Seq}))
+
+// Round trip over the two contracts: whatever String() emits, the parser accepts, and the result is
+// the normal form of the token, which denotes the same resume position.
+//@ lemma roundtrip(s SequenceID, t string, r SequenceID)
+//@   requires fmtSpec(s, t)
+//@   requires wfTok(t, r)
+//@   ensures[accepted]     t != "" && validTok(t)
+//@   ensures[normal-form]  r == normTok(s)
+//@   ensures[same-resume]  r.SafeSequence() == s.SafeSequence() || (s.TriggeredBy > 0 && s.Seq < s.TriggeredBy)
